@@ -29,14 +29,20 @@ os.makedirs(dst, exist_ok=True)
 for f in ('patch.diff', 'demo.py', 'note.txt'):
     if os.path.exists(os.path.join(src, f)):
         shutil.copy(os.path.join(src, f), dst)
-# run the check on /repo with the patch applied
-assert sh('git -C /repo diff --quiet').returncode == 0, '/repo dirty'
-ap = sh('git -C /repo apply %s/patch.diff' % dst)
+# run the check on the scratch worktree with the patch applied (ATHLIB_TREE), outputs to a scratch directory: /repo and the
+# committed evidence are not touched
+head = sh('git -C /repo rev-parse HEAD').stdout.strip()
+if sh('git -C %s rev-parse HEAD' % wt).stdout.strip() != head:
+    assert sh('git -C %s checkout -q --detach %s' % (wt, head)).returncode == 0
+ap = sh('git -C %s apply %s/patch.diff' % (wt, dst))
 assert ap.returncode == 0, ap.stderr
+out = '/tmp/seeded_out/%s' % name
+shutil.rmtree(out, ignore_errors=True)
+os.makedirs(out)
 try:
-    r = sh('cd /verif && ./check %s --quick' % prop)
+    r = sh('cd /verif && ATHLIB_TREE=%s VERIF_OUT=%s ./check %s --quick' % (wt, out, prop))
 finally:
-    sh('git -C /repo checkout -- .')
+    sh('git -C %s checkout -- .' % wt)
 lines = [l for l in (r.stdout + r.stderr).splitlines() if any(w in l for w in ('VIOLATION', 'UNDECIDED', 'CHECKER', 'quick:'))]
 caught = r.returncode == 1 and any(l.startswith('VIOLATION') for l in lines)
 print('check exit=%d caught=%s' % (r.returncode, caught))
@@ -47,5 +53,5 @@ meta = dict(property=prop, source='sub-agent in scratch worktree %s (no access t
             confirmed=dict(tests_with_change=t, demo_exit_clean=base_demo[0], demo_exit_with_change=mut_demo[0],
                            commands=['git apply patch.diff', 'PYTHONPATH=<tree> /venv/bin/python -m pytest -q -p no:cacheprovider',
                                      'PYTHONPATH=<tree> /venv/bin/python demo.py']),
-            check=dict(cmd='./check %s --quick' % prop, exit=r.returncode, caught=caught, lines=lines[:6]))
+            check=dict(cmd='ATHLIB_TREE=<tree with the patch> ./check %s --quick' % prop, exit=r.returncode, caught=caught, lines=lines[:6]))
 json.dump(meta, open(os.path.join(dst, 'meta.json'), 'w'), indent=1)
